@@ -169,7 +169,7 @@ Proof.
     let H1 := fresh in let H2 := fresh in
     apply orb_false_iff in H as [H1 H2]; apply negb_false_iff in H1; apply Nat.ltb_ge in H2;
     destruct (atoi_digits v (str_isnum_digits v H1) ltac:(lia)) as [-> _] end.
-  all: discriminate.
+  all: try match goal with |- context [if ?b then _ else _] => destruct b end; discriminate.
 Qed.
 
 Lemma ub_parse_nameserver e : no_ub (parse_nameserver nf e).
@@ -180,7 +180,8 @@ Proof.
   apply ub_bind.
   { destruct (match snd ipr with c :: _ => c =? ch_colon | [] => false end); [|apply ub_ok]. cbv zeta.
     destruct (fst (span isdigit (tl (snd ipr)))) as [|d0 dr] eqn:Ed; [apply ub_err|].
-    apply (ub_fetch_atoi 6 (d0 :: dr) (fun _ p => Ok (u16 p, snd (span isdigit (tl (snd ipr)))))); [|lia|intros; apply ub_ok].
+    apply (ub_fetch_atoi 6 (d0 :: dr) (fun _ p => if (65535 <? p)%Z then Err ARES_EBADSTR else Ok (p, snd (span isdigit (tl (snd ipr))))));
+      [|lia|intros ps p; destruct (65535 <? p)%Z; [apply ub_err|apply ub_ok]].
     rewrite <- Ed. apply span_fst_forall. }
   intros pr. cbv zeta.
   apply ub_bind; [repeat first [ub_step_eq | apply ub_fetch_string]|]. intros ir.
